@@ -12,7 +12,7 @@
 From Coq Require Import ZArith List Bool Lia Sorting.Permutation Sorting.Sorted.
 From RecordUpdate Require Import RecordUpdate.
 From SimVerif Require Import Model.Base Model.Env Model.FamEnv Model.RM Model.Maint Model.FloorTypes Model.Floor Model.FamFloor.
-From SimVerif Require Import Proofs.RMInv Proofs.EnvInv Proofs.EnvPause Proofs.FloorSteps Proofs.FloorInv Proofs.FloorSys Proofs.FloorProc Proofs.FloorFlow Proofs.FloorRes Proofs.FloorLink Proofs.FloorIdle Proofs.FloorLogInv Proofs.FloorTimer Proofs.FloorTimerInv.
+From SimVerif Require Import Proofs.RMInv Proofs.EnvInv Proofs.EnvPause Proofs.EnvRem Proofs.FloorSteps Proofs.FloorInv Proofs.FloorSys Proofs.FloorProc Proofs.FloorFlow Proofs.FloorRes Proofs.FloorLink Proofs.FloorIdle Proofs.FloorLogInv Proofs.FloorTimer Proofs.FloorTimerInv.
 Import ListNotations.
 Open Scope Z_scope.
 
@@ -104,6 +104,32 @@ Theorem C06_cycle_end_settles_its_device : forall ws nw skip en0 fuel w d,
   (okf w = true -> forall en, venv ws en0 w = Ok en -> cnt d en = 0) ->
   LT ws skip en0 (finish_cycle fuel nw w d).
 Proof. exact finish_fix. Qed.
+
+(** * the timer counts operational time (the whole floor system, any scenario, any weights).
+    By [C06_one_timer_per_part] a part in process has exactly one live FINISH event of its device; by [C06_timer] it is created at
+    acceptance with delay max(0, cycle time + one-shot offset); a shutdown pauses it and a restore resumes it
+    ([C06_shutdown_pauses_or_cancels]).  Here: over one step of the system, whatever happens in it, the remaining delay of that
+    event — (its time - the clock) while it is pending, (its time - the instant of the pause) while it is paused — goes down by
+    exactly the elapsed time if it was pending (the device was operational) and stays the same if it was paused (the device was
+    shut down); it is never changed otherwise as long as the event is not cancelled (a failure); and the event fires exactly when
+    the clock reaches its time.  So a part is released after exactly its cycle time of operational time: time spent shut down is
+    added on top, never lost; nothing finishes early or late. *)
+Theorem C06_pending_timer_loses_exactly_the_elapsed_time : forall sc ws w (en : env fact) e0 q w' en' e,
+  queue en = e0 :: q -> step ws (exec_fl sc) fl_wfail (w, en) = Some (Ok (w', en')) ->
+  In e q -> e_cancelled e = false ->
+  Rem fact en' (e_id e) ((e_time e - now en) - (now en' - now en)) \/ Cancelled fact en' (e_id e).
+Proof. intros sc ws. exact (step_pending fact fw ws (exec_fl sc) fl_wfail). Qed.
+Theorem C06_paused_timer_loses_nothing : forall sc ws w (en : env fact) w' en' e p,
+  step ws (exec_fl sc) fl_wfail (w, en) = Some (Ok (w', en')) ->
+  In e (paused en) -> e_cancelled e = false -> e_paused_at e = Some p ->
+  Rem fact en' (e_id e) (e_time e - p) \/ Cancelled fact en' (e_id e).
+Proof. intros sc ws. exact (step_paused fact fw ws (exec_fl sc) fl_wfail). Qed.
+Theorem C06_timer_fires_when_due : forall sc ws w (en : env fact) e0 q w' en',
+  queue en = e0 :: q -> step ws (exec_fl sc) fl_wfail (w, en) = Some (Ok (w', en')) -> now en' = e_time e0.
+Proof. intros sc ws. exact (step_dispatch_time fact fw ws (exec_fl sc) fl_wfail). Qed.
+Print Assumptions C06_pending_timer_loses_exactly_the_elapsed_time.
+Print Assumptions C06_paused_timer_loses_nothing.
+Print Assumptions C06_timer_fires_when_due.
 
 Print Assumptions C06_one_timer_per_part.
 Print Assumptions C06_isfin_def.
